@@ -33,3 +33,12 @@ Theorem C14_import_only_accepted : forall ident tpat fpat ign usecompiled top se
   module_name usecompiled name_roots fp = Some m /\ accept search mpats m = true.
 Proof. exact imported_only_accepted. Qed.
 Print Assumptions C14_import_only_accepted.
+
+(* discovery (and hence the default execution order) does not depend on the order in which the file system
+   enumerates directory entries: trees that differ only by permuting children, at any depth, are walked alike *)
+From ZT Require Import DiscoverPerm.
+Theorem C14_enumeration_order_irrelevant : forall ident tpat fpat ign usecompiled e e',
+  nd e -> eperm e e' ->
+  walk_e ident tpat fpat ign usecompiled (normalize e) = walk_e ident tpat fpat ign usecompiled (normalize e').
+Proof. exact walk_enumeration_independent. Qed.
+Print Assumptions C14_enumeration_order_irrelevant.
